@@ -36,5 +36,7 @@ extern void mpi_reduce_min(double *node_min_p);
 extern bool mpi_reduce_min_done(void);
 
 extern void mpi_node_barrier(void);
+extern void mpi_node_barrier_start(void);
+extern bool mpi_node_barrier_done(void);
 extern void mpi_blocking_data_send(const void *data, int data_size, nid_t dest);
 extern void *mpi_blocking_data_rcv(int *data_size_p, nid_t src);
